@@ -390,7 +390,7 @@ fn extreme_numeral(rng: &mut Rng) -> Vec<u8> {
 pub fn mutate(rng: &mut Rng, mut b: Vec<u8>) -> Vec<u8> {
     for _ in 0..rng.range(1, 3) {
         let len = b.len();
-        match rng.below(7) {
+        match rng.below(8) {
             0 if len > 0 => { let i = rng.below(len as u64) as usize; b[i] = *rng.pick(b" \t\r\n0123456789-pcx{}\xff\x00wgnf"); }
             1 if len > 0 => { let i = rng.below(len as u64) as usize; b.remove(i); }
             2 => { let i = rng.range(0, len as u64) as usize; b.insert(i, *rng.pick(b" \n0-19c{}\r")); }
@@ -401,6 +401,13 @@ pub fn mutate(rng: &mut Rng, mut b: Vec<u8>) -> Vec<u8> {
                 let j = (i + rng.range(1, 6) as usize).min(len);
                 let dup: Vec<u8> = b[i..j].to_vec();
                 b.splice(j..j, dup);
+            }
+            6 if rng.chance(1, 3) => {
+                // a long garbage token around the 60-byte cap of the error-message scanner
+                let i = rng.range(0, len as u64) as usize;
+                let n = rng.range(55, 70) as usize;
+                let tok: Vec<u8> = (0..n).map(|_| *rng.pick(b"xyz01-")).collect();
+                b.splice(i..i, tok);
             }
             _ => { let i = rng.range(0, len as u64) as usize; b.insert(i, rng.next() as u8); }
         }
